@@ -1,168 +1,29 @@
-import Rv.Basic
-import Rv.Model.Range
-import Rv.Spec.Range
-import Rv.Model.ByteSize
-import Rv.Model.CacheControl
-import Rv.Spec.Freshness
-import Rv.Model.Key
-import Rv.Spec.Resource
-import Rv.Model.Phc
+import Rv.Oracle.Stateless
+import Rv.Oracle.Cache
+import Rv.Oracle.Event
 /-
-  Rv.Oracle — line-protocol driver.  One input line
-
-      family \t arg … \t => \t implementation-observation
-
-  produces one output line
-
-      model-observation \t verdict
-
-  where `verdict` is `ok` or `bad:<reason>`: the property predicate of
-  Rv/Spec evaluated on the IMPLEMENTATION's observation (so a concrete failing
-  input is recognised even when model and code agree with each other).
+  Rv.Oracle — dispatch of op lines to the stateless and stateful model drivers.
 -/
 namespace Rv.Oracle
-open Rv
 
-def field (x : String) : Str :=
-  if x = "-" then [] else (unhex x.toList).getD ['?', 'b', 'a', 'd', 'h', 'e', 'x']
-
-def parseObsSlice (obs : String) : Option (Int × Int) :=
-  match obs.splitOn ":" with
-  | ["slice", a, b] => match a.toInt?, b.toInt? with
-    | some x, some y => some (x, y)
-    | _, _ => none
-  | _ => none
-
-/-- C07 predicate on an observed outcome. -/
-def rangeVerdict (x : Str) (size : Int) (obs : String) : String :=
-  if obs = "panic" then "bad:panic"
-  else match parseObsSlice obs with
-    | some (a, b) =>
-      if !(0 ≤ a && a ≤ b && b < size) then "bad:slice-outside"
-      else match Spec.Range.wellFormedSingle x with
-        | some sp =>
-          if Spec.Range.resolve sp size.toNat = some (a.toNat, b.toNat) then "ok"
-          else "bad:not-the-requested-range"
-        | none => "ok"
-    | none => if obs = "absent" || obs = "reject" then "ok" else "bad:unknown-observation"
-
-def str (x : Str) : String := String.ofList x
-
-def hexOut (x : Str) : String := if x = [] then "-" else str (hex x)
-
-def decodeList (f : String) : List Str :=
-  if f = "[]" then [] else (f.splitOn ";").map field
-
-/-- C17 predicate on an observed `Parse` result: accepted ⇔ digits-plus-unit
-    whose value fits, and then it means digits × unit. -/
-def bsParseVerdict (x : Str) (obs : String) : String :=
-  let shape : Option Nat :=
-    match x.reverse with
-    | [] => none
-    | u :: dsr =>
-      let ds := dsr.reverse
-      match ByteSize.unitOf u with
-      | some m => if ds ≠ [] && allDigits ds && decVal ds * m ≤ maxI64 then some (decVal ds * m) else none
-      | none => none
-  if obs = "panic" then "bad:panic"
-  else match shape with
-    | some v => if obs = s!"ok:{v}" then "ok" else "bad:valid-size-string-not-accepted-as-digits-times-unit"
-    | none => if obs = "err" then "ok" else "bad:malformed-size-string-accepted"
-
-def dirRender (store : Bool) (x now : Int) : String :=
-  let e := if x = CacheControl.zeroTime then "zero" else s!"rel:{(x - now) / CacheControl.second}"
-  s!"store={if store then 1 else 0};exp={e}"
-
-def dirNow : Int := 1700000000 * CacheControl.second
-
-/-- C03/C04 predicate on the observed decision, straight from Spec.Freshness
-    (only the clauses the properties state; everything else is "ok"). -/
-def dirVerdict (lines : List Str) (e : CacheControl.ExpiresHdr) (ignore force : Bool) (dflt : Int) (obs : String) : String :=
-  let ts := Spec.Freshness.tokens lines
-  let stored := obs.startsWith "store=1"
-  let now := dirNow
-  if obs = "panic" then "bad:panic"
-  else if obs = "unstable-clock" then "ok"
-  else
-    let pastOrBad := match e with
-      | .bad => true
-      | .at t => decide (t < now)
-      | .absent => false
-    let pos := Spec.Freshness.positiveMaxAges ts
-    if stored && !ignore && Spec.Freshness.forbids ts then "bad:stored-although-origin-forbids"
-    else if stored && !ignore && pos.isEmpty && pastOrBad then "bad:stored-although-expired"
-    else if !stored && ignore then "bad:not-stored-although-directives-ignored"
-    else if !stored && !Spec.Freshness.forbids ts && !pos.isEmpty then "bad:positive-max-age-not-stored"
-    else if !stored && lines.isEmpty && !pastOrBad then "bad:plain-response-not-stored"
-    else if stored && ts.all (fun t => Spec.Freshness.maxAgeOf t != some none) then
-      let want := Spec.Freshness.expiryInstant lines e force dflt now
-      if obs = dirRender true want now then "ok" else "bad:lifetime-rule"
-    else "ok"
-
-def reqOf (m h p q : String) : Spec.Resource.Req := ⟨field m, field h, field p, field q⟩
-
-def stepFields (fs : List String) (obs : String) : String :=
-  match fs with
-  | ["bsparse", hx] =>
-    let x := field hx
-    (ByteSize.parse x).render ++ "\t" ++ bsParseVerdict x obs
-  | ["bsround", n] =>
-    let v := n.toNat?.getD 0
-    let st := ByteSize.toStr v
-    let m := hexOut st ++ "|" ++ (ByteSize.parse st).render
-    -- predicate: whatever string the implementation printed reads back to v
-    let verdict := match obs.splitOn "|" with
-      | [_, r] => if r = s!"ok:{v}" then "ok" else "bad:size-does-not-read-back"
-      | _ => "bad:size-does-not-read-back"
-    m ++ "\t" ++ verdict
-  | ["dir", lines, ek, off, ig, fo, dflt] =>
-    let ls := decodeList lines
-    let now := dirNow
-    let e : CacheControl.ExpiresHdr :=
-      if ek = "absent" then .absent
-      else if ek = "at" then .at (now + (off.toInt?.getD 0) * CacheControl.second)
-      else .bad
-    let ignore := ig = "1"
-    let force := fo = "1"
-    let d := (dflt.toInt?.getD 0) * CacheControl.second
-    let dv := CacheControl.parseDirectives ls e false
-    let store := CacheControl.shouldCache dv ignore now
-    let x := CacheControl.expiresOrDefault dv force d now
-    dirRender store x now ++ "\t" ++ dirVerdict ls e ignore force d obs
-  | ["key", tls, m, h, p, q] =>
-    let sc := if tls = "1" then s "https" else s "http"
-    hexOut (Key.keyString sc (field m) (field h) (field p) (field q)) ++ "\t" ++ (if obs = "panic" then "bad:panic" else "ok")
-  | ["keypair", tls, m1, h1, p1, q1, m2, h2, p2, q2] =>
-    let sc := if tls = "1" then s "https" else s "http"
-    let a := reqOf m1 h1 p1 q1
-    let b := reqOf m2 h2 p2 q2
-    let same := Key.keyString sc a.method a.host a.path a.query = Key.keyString sc b.method b.host b.path b.query
-    let spec := decide (Spec.Resource.sameResource a b)
-    let verdict :=
-      if obs = "same" && !spec then "bad:distinct-resources-share-an-entry"
-      else if obs = "diff" && spec then "bad:same-resource-does-not-share"
-      else if obs = "panic" then "bad:panic" else "ok"
-    (if same then "same" else "diff") ++ "\t" ++ verdict
-  | ["clean", p] => hexOut (Key.clean (field p)) ++ "\tok"
-  | ["phc", hx] =>
-    let m := match Phc.parsePHC (field hx) with
-      | .panic => "panic"
-      | .err => "err"
-      | .ok p => "ok:" ++ hexOut (Phc.render p)
-    m ++ "\t" ++ (if obs = "panic" then "bad:panic" else "ok")
-  | ["range", hx, size] =>
-    let x := field hx
-    let sz := size.toInt?.getD 0
-    (Range.outcome x sz).render ++ "\t" ++ rangeVerdict x sz obs
-  | _ => "bad-op\tbad:bad-op"
+structure OState where
+  cache : Cache.CState := {}
+  ev : Event.EState := {}
 
 def splitArrow : List String → List String → (List String × String)
   | [], acc => (acc.reverse, "")
   | "=>" :: rest, acc => (acc.reverse, "\t".intercalate rest)
   | f :: rest, acc => splitArrow rest (f :: acc)
 
-def step (line : String) : String :=
+def step (os : OState) (line : String) : OState × String :=
   let (fs, obs) := splitArrow (line.splitOn "\t") []
-  stepFields fs obs
+  match fs with
+  | "ct" :: _ =>
+    let (c, m, v) := Cache.step os.cache fs obs
+    ({ os with cache := c }, m ++ "\t" ++ v)
+  | "ev" :: _ =>
+    let (e, m, v) := Event.step os.ev fs obs
+    ({ os with ev := e }, m ++ "\t" ++ v)
+  | _ => (os, stepFields fs obs)
 
 end Rv.Oracle
